@@ -128,6 +128,61 @@ def path_repr(p):
         return repr(p)
 
 
+# group transforms (Document.add_group(group_attribs={'transform': ...})): the string the caller supplies
+# and, computed here by hand (not with the library's parse_transform), the matrix SVG gives it
+def _mat(a, b, c, d, e, f):
+    return ((a, c, e), (b, d, f), (0.0, 0.0, 1.0))
+
+
+GROUP_TRANSFORMS = {
+    "translate(3,4)": _mat(1, 0, 0, 1, 3, 4),
+    "translate(-2.5)": _mat(1, 0, 0, 1, -2.5, 0),
+    "scale(2)": _mat(2, 0, 0, 2, 0, 0),
+    "scale(2,-3)": _mat(2, 0, 0, -3, 0, 0),
+    "rotate(90)": _mat(0, 1, -1, 0, 0, 0),
+    "matrix(1,0,0,1,5,6)": _mat(1, 0, 0, 1, 5, 6),
+    "matrix(0.5,1,-1,0.5,10,-20)": _mat(0.5, 1, -1, 0.5, 10, -20),
+    "translate(1,2) scale(2)": _mat(2, 0, 0, 2, 1, 2),
+    "skewX(45)": _mat(1, 0, 1, 1, 0, 0),
+}
+IDENT = _mat(1, 0, 0, 1, 0, 0)
+
+
+def mat_mul(m, n):
+    return tuple(tuple(sum(m[i][k] * n[k][j] for k in range(3)) for j in range(3)) for i in range(3))
+
+
+def mat_apply(m, z):
+    return complex(m[0][0] * z.real + m[0][1] * z.imag + m[0][2], m[1][0] * z.real + m[1][1] * z.imag + m[1][2])
+
+
+def path_equal_tf(a, m, b):
+    """b is what a under the affine map m looks like: same number and kinds of segments (a Line stays a
+    Line, a Bezier a Bezier of its degree, an Arc an Arc) and, affine maps commuting with point(), the
+    same point at the same parameter - to 1e-7 of the path's coordinates' magnitude, which tells 'applied' from
+    'not applied', 'applied twice' or 'applied in the wrong order', and nothing finer."""
+    try:
+        if len(a) != len(b):
+            return False
+        # the yardstick is the size of the whole path's coordinates, not of the one point: point(t) of a
+        # segment whose ends differ by 10 orders of magnitude cancels (start + t*(end-start)), before
+        # and after the map differently
+        scale = 1.0
+        for x in a:
+            for z in (x.bpoints() if hasattr(x, "bpoints") else (x.start, x.end)):
+                scale = max(scale, abs(mat_apply(m, z)))
+        for x, y in zip(a, b):
+            if type(x) is not type(y):
+                return False
+            for t in (0.0, 0.3, 0.5, 0.8, 1.0):
+                want, got = mat_apply(m, x.point(t)), y.point(t)
+                if not abs(want - got) <= 1e-7 * scale:
+                    return False
+        return True
+    except Exception:
+        return False
+
+
 # ----------------------------------------------------------------------------------------------
 # reference model
 # ----------------------------------------------------------------------------------------------
@@ -147,7 +202,7 @@ class GNode:
 
 
 class Tree:
-    __slots__ = ("svg_attrs", "children", "writer", "shapes", "dless")
+    __slots__ = ("svg_attrs", "children", "writer", "shapes", "dless", "base_tf")
 
     def __init__(self, svg_attrs=None, writer="?"):
         self.svg_attrs = dict(svg_attrs or {})
@@ -155,6 +210,7 @@ class Tree:
         self.writer = writer
         self.shapes = False      # the document also holds circles/rects/... (not modelled, filtered on read)
         self.dless = False       # ... or a <path> without d: svg2paths refuses such a file (KeyError), by design
+        self.base_tf = IDENT     # a sub-tree handed to match(): what its ancestors contribute
 
     def clone(self):
         def cl(n):
@@ -167,6 +223,7 @@ class Tree:
         t.children = [cl(c) for c in self.children]
         t.shapes = self.shapes
         t.dless = self.dless
+        t.base_tf = self.base_tf
         return t
 
     def flat(self):
@@ -181,6 +238,34 @@ class Tree:
                     walk(c.children, key + (c.name, i))
         walk(self.children, ())
         return out
+
+    def flat_tf(self):
+        """For every entry of flat(): the matrix its ancestor groups give it (outermost applied last), or
+        None when no group on the way has a transform."""
+        out = []
+
+        def walk(children, m, any_tf):
+            for c in children:
+                if isinstance(c, PNode):
+                    out.append(m if any_tf else None)
+                else:
+                    t = c.attrs.get("transform")
+                    if t is not None:
+                        walk(c.children, mat_mul(m, GROUP_TRANSFORMS[t]), True)
+                    else:
+                        walk(c.children, m, any_tf)
+        walk(self.children, self.base_tf, self.base_tf != IDENT)
+        return out
+
+    def has_transforms(self):
+        return any(m is not None for m in self.flat_tf())
+
+    def arc_under_transform(self):
+        """An Arc inside a group with a transform: what transform() makes of an Arc is C10's subject (on the
+        pinned tree it raises TypeError for some matrices and mis-rotates already rotated arcs - the
+        repository's own test_group_transform fails); nothing about such an entry is judged here."""
+        return any(m is not None and any(isinstance(sg, Arc) for sg in e.path)
+                   for (e, _), m in zip(self.flat(), self.flat_tf()))
 
     def has_opaque_groups(self):
         def walk(children):
@@ -303,6 +388,24 @@ def match(result, tree, reader, check_attrs=True, attr_filter=None):
     if svg_attrs is not None:
         svg_attrs = clark_dict(svg_attrs, nsm)
     exp = tree.flat()
+    tfs = tree.flat_tf()
+    # a path inside a group with a transform: Document applies it (that is what flattening means),
+    # svg2paths* hand out the d attribute as it stands (documented), SaxDocument computes the matrix but
+    # today does not apply it in flatten_all_paths - either answer is accepted from it
+    tf_mode = "apply" if reader.startswith("document") else ("either" if reader.startswith("sax") else "raw")
+
+    def geq(i, q):
+        e, m = exp[i][0], tfs[i]
+        if m is None or tf_mode == "raw":
+            return path_equal(e.path, q)
+        if any(isinstance(sg, Arc) for sg in e.path):
+            try:
+                return len(q) == len(e.path)          # C10's subject, see Tree.arc_under_transform
+            except Exception:
+                return False
+        if tf_mode == "apply":
+            return path_equal_tf(e.path, m, q)
+        return path_equal(e.path, q) or path_equal_tf(e.path, m, q)
     if len(paths) < len(exp):
         return ("missing", {"expected": len(exp), "got": len(paths)})
     if len(paths) > len(exp):
@@ -324,17 +427,18 @@ def match(result, tree, reader, check_attrs=True, attr_filter=None):
         c = None
         if use_ids and e.attrs is not None and "id" in e.attrs and attr_text(e.attrs["id"]) in got_ids:
             c = [j for j in got_ids[attr_text(e.attrs["id"])]]
-            good = [j for j in c if path_equal(e.path, paths[j])]
+            good = [j for j in c if geq(i, paths[j])]
             if not good:
-                if any(path_equal(e.path, q) for q in paths):
+                if any(geq(i, q) for q in paths):
                     return ("attr_mispaired", {"id": e.attrs.get("id"), "expected": path_repr(e.path),
                                                "got": path_repr(paths[c[0]])})
-                return ("geometry", {"expected": path_repr(e.path), "got": path_repr(paths[c[0]])})
+                return ("geometry", {"expected": path_repr(e.path), "got": path_repr(paths[c[0]]),
+                                     "group_transform": tfs[i]})
             c = good
         else:
-            c = [j for j in range(n) if path_equal(e.path, paths[j])]
+            c = [j for j in range(n) if geq(i, paths[j])]
             if not c:
-                return ("geometry", {"expected": path_repr(e.path),
+                return ("geometry", {"expected": path_repr(e.path), "group_transform": tfs[i],
                                      "got_at_same_index": path_repr(paths[i]) if i < len(paths) else None})
         cand.append(c)
 
@@ -664,13 +768,13 @@ class World:
                     sx.sax_parse(name)
                 ps = sx.flatten_all_paths()
                 keep = [i for i, v in enumerate(sx.tree) if v.get("name", "path") == "path" and v.get("d", "x") != ""
-                        and "transform" not in v]
+                        and not ("transform" in v and v.get("id") == "moved")]
                 return ("ok", ([ps[i] for i in keep], [dict(sx.tree[i]) for i in keep], dict(sx.root_values)))
             if reader == "sax":
                 sx = SaxDocument(name)
                 ps = sx.flatten_all_paths()
                 keep = [i for i, v in enumerate(sx.tree) if v.get("name", "path") == "path" and v.get("d", "x") != ""
-                        and "transform" not in v]
+                        and not ("transform" in v and v.get("id") == "moved")]
                 return ("ok", ([ps[i] for i in keep], [dict(sx.tree[i]) for i in keep], dict(sx.root_values)))
         except SimCrash:
             raise
@@ -708,6 +812,9 @@ class World:
             if oc[0] != "ok" and tree.dless and rd.startswith(("svg2paths", "svgstr2paths")) and oc[1] == "KeyError":
                 # a <path> without d: svg2paths refuses the whole file; refusing is allowed, wrong data is not
                 self.probe("svg2paths_refused_file_with_dless_path")
+                return
+            if oc[0] != "ok" and rd.startswith(("document", "sax")) and tree.arc_under_transform():
+                self.probe("arc_under_group_transform_not_judged")
                 return
             if oc[0] != "ok":
                 self.violate(idx, "read_failed", {"file": name, "raised": oc[1]}, tree.writer, tree.shape(), rd, fault)
@@ -1150,6 +1257,9 @@ class World:
             return ([p[i] for i in keep], [a[i] for i in keep] if len(p) == len(a) else a, s)
         st, res, _ = self.run({"faults": []}, read)
         rd = op.get("reader", "svgstr2paths")
+        if st != "ok" and rd.startswith("document") and dm.tree.arc_under_transform():
+            self.probe("arc_under_group_transform_not_judged")
+            return "ok"
         if st != "ok":
             if not (dm.tree.dless and rd == "svgstr2paths" and st == "raised:KeyError"):
                 self.violate(idx, "read_failed", {"op": "text of the document", "status": st}, "document:text",
@@ -1236,6 +1346,11 @@ class World:
         if fkw:
             self.probe("query_with_explicit_filters")
         st, ps, _ = self.run({"faults": []}, lambda: dm.obj.paths(**fkw))
+        if st != "ok" and dm.tree.arc_under_transform():
+            self.probe("arc_under_group_transform_not_judged")
+            return
+        if dm.tree.has_transforms():
+            self.probe("document_query_with_group_transforms")
         if st != "ok":
             self.violate(idx, "read_failed", {"status": st, "op": "Document.paths()"}, "document", dm.tree.shape(),
                          "document-live")
@@ -1293,12 +1408,22 @@ class World:
         if fkw:
             self.probe("query_with_explicit_filters")
         st, ps, _ = self.run({"faults": []}, lambda: dm.obj.paths_from_group(arg, recursive=recursive, **fkw))
+        if st != "ok" and dm.tree.arc_under_transform():
+            self.probe("arc_under_group_transform_not_judged")
+            return "ok"
         if st != "ok":
             self.violate(idx, "read_failed", {"status": st, "op": "paths_from_group"}, "document", dm.tree.shape(),
                          "document-live-group")
             return st
         sub = Tree({}, "document")
         if gnode is not None and gnode is not dm.tree:
+            # paths_from_group flattens into the ROOT frame: the group's own and its ancestors' transforms
+            cur, m = dm.tree, IDENT
+            for nm in names:
+                cur = next(c for c in cur.children if isinstance(c, GNode) and c.name == nm)
+                if cur.attrs.get("transform") is not None:
+                    m = mat_mul(m, GROUP_TRANSFORMS[cur.attrs["transform"]])
+            sub.base_tf = m
             sub.children = gnode.children
         elif gnode is dm.tree:
             sub.children = dm.tree.children
@@ -1365,6 +1490,9 @@ class World:
         base = fm.alts[0]
         if base.shapes:
             return "skipped"      # SaxDocument.save turns every shape into a path element: not modelled
+        if base.has_transforms():
+            self.probe("sax_resave_of_transformed_groups_not_modelled")
+            return "skipped"      # ... and writes the matrix it computed onto each path element
         tree = Tree({k: v for k, v in base.svg_attrs.items() if k in ("width", "height", "viewBox")}, "sax")
         for e, key in base.flat():
             keep = None
@@ -1613,6 +1741,7 @@ class Gen:
         self.maxfaults = c.randint(1, 3)
         self.reuse_names = c.random() < 0.35
         self.pathlike = c.random() < 0.3
+        self.group_transforms = c.random() < 0.3     # add_group(group_attribs={'transform': ...})
 
     def config(self):
         return {"faulting": self.faulting, "bufsize": self.bufsize, "chunk": self.chunk, "readers": self.readers,
@@ -1982,6 +2111,8 @@ class Gen:
                 at["style"] = a.choice(STYLE_VALS)       # a container's style must not leak into its paths
             if a.random() < 0.2:
                 at["fill"] = a.choice(VAL_SIMPLE)
+            if self.group_transforms and a.random() < 0.6:
+                at["transform"] = a.choice(sorted(GROUP_TRANSFORMS))
             return {"op": k, "doc": d, "attrs": at, "parent": parent}
         if k == "doc_get_or_add_group":
             op = {"op": k, "doc": d, "names": a.choice(GROUP_POOL)}
